@@ -206,6 +206,15 @@ mod verif_impl {
                 self.deref().fetch_sub(v, o) as u64
             }) as usize
         }
+        // exclusive access (construction): not a shared-memory operation, no event
+        pub(crate) fn get_mut(&mut self) -> &mut usize {
+            self.inner.get_mut().get_mut()
+        }
+        pub(crate) fn fetch_and(&self, v: usize, o: Ordering) -> usize {
+            op(self.site, self.a(), "fetch_and", v as u64, 0, ord_code(o), || {
+                self.deref().fetch_and(v, o) as u64
+            }) as usize
+        }
         pub(crate) fn compare_exchange(
             &self,
             c: usize,
